@@ -157,6 +157,32 @@ def run(ctx):
             ons = [n for n in ia.nodes if n.get("k") == "bin" and n["op"] == "=" and expr_str(n.child("l")) == "canUpdateIfNewer" and core(n.child("r")).get("v") is not False]
             ok = ok and not ons
         ru.check(ok, "inputsAvailable|shortcut-behind-guard", "", "the shortcut completion is reachable without passing the disabling test, or canUpdateIfNewer is re-enabled", ia)
+    # depfile-discovered inputs: every path the depfile names becomes a (value) dependency
+    rd = rep.rule("R-NINJA-DEPS", "every dependency the depfile parser reports is recorded with discoveredDependency (the only exit that skips it is a path that "
+                                  "could not be normalised); the recorded path derives from the un-escaped word; what the manifest already declares - in "
+                                  "particular an order-only input, which by itself never triggers a rebuild - does not suppress it", floor=3)
+    da = [f for f in prog.functions.values() if relpath(f.file) == NB and not f.is_lambda and f.name.endswith("DepsActions::actOnRuleDependency")]
+    if len(da) != 1:
+        raise AnalysisBroken("Ninja DepsActions::actOnRuleDependency: %d found" % len(da))
+    da = da[0]
+    dd = da.calls("TaskInterface::discoveredDependency")
+    okd = len(dd) == 1
+    rd.check(okd, "actOnRuleDependency|records-dependency", "", "expected exactly one discoveredDependency call (found %d)" % len(dd), da)
+    if okd:
+        bfd = BranchFacts(da, kill="assign")
+        dpos = cfg.pos_of(da, dd[0])
+        legit = set()
+        for x in da.nodes:
+            if x.get("k") == "return" and any((not p) and "normalize_path" in a for a, p in (bfd.at_node(x) or frozenset())):
+                legit.add(cfg.pos_of(da, x))
+        w = cfg.path_exists(da, cfg.entry_pos(da), cfg.is_exit, avoid=lambda p, e: p == dpos or p in legit)
+        rd.check(w is None, "actOnRuleDependency|no-dependency-dropped", "%d normalisation-failure exit(s)" % len(legit),
+                 "a dependency named by the depfile can be skipped without being recorded (exit not caused by a path-normalisation failure)", da, dd[0], path=w)
+        from sa.flow import taint_closure, param_did
+        t = taint_closure(da, {param_did(da, "unescapedWord")})
+        from sa.flow import mentions as _m
+        rd.check(_m(arg_nodes(dd[0])[0], t) and not _m(arg_nodes(dd[0])[0], taint_closure(da, {param_did(da, "dependency")}) - t), "actOnRuleDependency|from-unescaped-word", "",
+                 "the recorded dependency does not derive from the un-escaped word", da, dd[0])
     sel = [f for f in prog.functions.values() if relpath(f.file) == NB and not f.is_lambda and f.name.endswith("SelectResultTask::inputsAvailable")]
     if len(sel) != 1:
         raise AnalysisBroken("SelectResultTask::inputsAvailable not found")
@@ -186,6 +212,18 @@ def disj(n):
 
 
 VARIANTS = [
+    dict(name="depfile-skips-declared-inputs", file=NB,
+         old="            StringRef path = absPathTmp;\n            ti.discoveredDependency(path);",
+         new="            StringRef path = absPathTmp;\n            if (path.endswith(\".h\") && path.startswith(workingDirectory)) return;\n            ti.discoveredDependency(path);",
+         expect=("R-NINJA-DEPS", "no-dependency-dropped")),
+    dict(name="no-prior-result-allows-mtime-shortcut", file=NB,
+         old="        if (!command->hasGeneratorFlag() &&\n            (!hasPriorResult || priorCommandHash != commandHash))\n          canUpdateIfNewer = false;",
+         new="        bool commandChanged = hasPriorResult && priorCommandHash != commandHash;\n        if (!command->hasGeneratorFlag() && commandChanged)\n          canUpdateIfNewer = false;",
+         expect=("R-NINJA-UPDATE-IF-NEWER", "no successful prior result")),
+    dict(name="benign-update-if-newer-guard-via-local", file=NB,
+         old="        if (!command->hasGeneratorFlag() &&\n            (!hasPriorResult || priorCommandHash != commandHash))\n          canUpdateIfNewer = false;",
+         new="        bool sameCommand = hasPriorResult && priorCommandHash == commandHash;\n        if (!command->hasGeneratorFlag() && !sameCommand)\n          canUpdateIfNewer = false;",
+         expect=None),
     dict(name="order-only-requested-as-value", file=NB, old="        ti.mustFollow((*it)->getCanonicalPath());", new="        ti.request((*it)->getCanonicalPath(), id++);",
          expect=("R-NINJA-ORDERONLY", "orderOnlyInputs")),
     dict(name="implicit-inputs-only-followed", file=NB,
